@@ -338,7 +338,12 @@ func statusCases() []caseRec {
 				"refine-target-deep":  fmt.Sprintf("grouping g { container gc { leaf a { type string; status %s; } } } container c { uses g { status %s; refine gc/a { description \"x\"; } } }", s2, s1),
 				"refine-target-mid":   fmt.Sprintf("grouping g { container gc { status %s; leaf a { type string; } } } container c { uses g { status %s; refine gc/a { description \"x\"; } } }", s2, s1),
 				"uses-augment-target": fmt.Sprintf("grouping g { container gc { status %s; leaf a { type string; } } } container c { uses g { status %s; augment gc { leaf extra { type string; } } } }", s2, s1),
-				"typedef-chain":       fmt.Sprintf("typedef t0 { type string; status %s; } typedef t1 { type t0; status %s; } leaf l { type t1; status %s; }", s2, s1, s1),
+				// a union written inside a typedef: its members are referenced by the typedef (status s1),
+				// whatever the status of the leaf that uses the typedef (obsolete: may reference anything)
+				"union-in-typedef-member-typedef":  fmt.Sprintf("typedef t0 { type string; status %s; } typedef t1 { status %s; type union { type t0; type uint8; } } leaf l { type t1; status obsolete; }", s2, s1),
+				"union-in-typedef-member-identity": fmt.Sprintf("identity b { status %s; } typedef t1 { status %s; type union { type identityref { base b; } type uint8; } } leaf l { type t1; status obsolete; }", s2, s1),
+				"union-on-leaf-member-typedef":     fmt.Sprintf("typedef t0 { type string; status %s; } leaf l { status %s; type union { type uint8; type t0; } }", s2, s1),
+				"typedef-chain":                    fmt.Sprintf("typedef t0 { type string; status %s; } typedef t1 { type t0; status %s; } leaf l { type t1; status %s; }", s2, s1, s1),
 			}
 			var names []string
 			for k := range refs {
